@@ -49,7 +49,7 @@ func (p *Program) SentinelError(g *ssa.Global) bool {
 							return false
 						}
 					case *ssa.Store:
-						if x.Addr != ssa.Value(g) || !(f.Synthetic != "" && f.Name() == "init") || p.ErrNil(x.Val) != 1 {
+						if x.Addr != ssa.Value(g) || !IsInitFunc(f) || p.ErrNil(x.Val) != 1 {
 							return false
 						}
 						stores++
@@ -118,4 +118,27 @@ func (p *Program) errNil(v ssa.Value, depth int) int {
 		return p.errNil(x.X, depth+1)
 	}
 	return 2
+}
+
+// IsInitFunc: the synthetic package initialiser or a declared `func init()`
+// (go/ssa names them init#1, init#2, …; Go allows no other caller than the
+// package initialiser). Both run single-threaded before any API call.
+func IsInitFunc(f *ssa.Function) bool {
+	if f == nil || f.Parent() != nil || f.Signature.Recv() != nil {
+		return false
+	}
+	if f.Synthetic != "" && f.Name() == "init" {
+		return true
+	}
+	return f.Synthetic == "" && len(f.Name()) > 5 && f.Name()[:5] == "init#"
+}
+
+// Sizes returns the type sizes of the analysed configuration.
+func (p *Program) Sizes() types.Sizes {
+	for _, pk := range p.Pkgs {
+		if pk.TypesSizes != nil {
+			return pk.TypesSizes
+		}
+	}
+	return types.SizesFor("gc", "amd64")
 }
